@@ -1,153 +1,7 @@
-mod explain;
-mod interp;
-mod lockfuzz;
-mod oracle;
-mod payload;
-mod props;
-mod rt;
-
-use common::driver::{self, CaseOut, Engine, ParentCfg};
+use common::driver::{self, ParentCfg};
 use common::ops::*;
-use proptest::prelude::*;
-use proptest::strategy::BoxedStrategy;
-use serde_json::json;
-use std::hash::{Hash, Hasher};
+use conc::*;
 use std::path::PathBuf;
-
-pub struct Conc;
-
-fn hash_of<T: Hash>(t: &T) -> u64 {
-    let mut h = std::collections::hash_map::DefaultHasher::new();
-    t.hash(&mut h);
-    h.finish()
-}
-
-fn short_res(r: &interp::Res) -> String {
-    use interp::Res::*;
-    match r {
-        Stuck => "Stuck".into(),
-        Unit => "Ok".into(),
-        Bool(b) => format!("Ok({})", b),
-        Val(_) => "Ok(value)".into(),
-        NoneV => "Ok(None)".into(),
-        Count(..) => "Ok(count)".into(),
-        Err(e) => format!("Err({:?})", e),
-        End => "End".into(),
-        Panic(_) => "Panic".into(),
-        Dropped(n) => format!("Dropped(after {} poll{})", if *n == 0 { "0".to_string() } else { ">=1".to_string() }, "s"),
-        Skip => "Skip".into(),
-        Obs(_) => "Obs".into(),
-        Done => "Done".into(),
-    }
-}
-
-pub fn run_case(prop: &str, case: &Case) -> CaseOut {
-    let prof = props::profile(prop, "quick");
-    let prog = case.decode(&prof);
-    let out = interp::run_any(&prog);
-    oracle::EXPLAIN.with(|e| e.set(prop == "C03"));
-    let (viols, feat) = oracle::evaluate(&prog, &out);
-    let ops = &out.exec.ops;
-    let mut co = CaseOut::default();
-    for v in viols.iter() {
-        let (k, r) = match v.op.and_then(|i| ops.get(i as usize)) {
-            Some(o) => (o.k.name().to_string(), short_res(&o.res)),
-            None => ("-".into(), "-".into()),
-        };
-        if props::accepts(prop, v, ops) {
-            co.viols.push((v.pred.to_string(), format!("{}/{}/{}/{}", prop, v.pred, k, r), v.detail.clone()));
-        } else {
-            co.other.push(format!("{}/{}/{}", v.pred, k, r));
-        }
-    }
-    co.inconclusive = out.outcome.end == rt::End::Budget;
-    co.classes = feat.c.iter().map(|(k, n)| (k.to_string(), *n)).collect();
-    if props::nontrivial(prop, &feat) && !co.inconclusive {
-        co.nontrivial = Some(hash_of(&(hash_of(&prog), out.outcome.seq_digest)));
-    }
-    let hist: Vec<String> = ops
-        .iter()
-        .filter(|o| o.res != interp::Res::Skip)
-        .map(|o| {
-            format!(
-                "#{} t{} {}{} [{}..{}] -> {:?}{}",
-                0,
-                o.t,
-                o.k.name(),
-                if o.implicit { "(implicit)" } else { "" },
-                o.inv,
-                if o.ret == 0 { "stuck".to_string() } else { o.ret.to_string() },
-                o.res,
-                match o.sent {
-                    Some(id) if id != u32::MAX => format!(" sent={}", id),
-                    _ => String::new(),
-                }
-            )
-        })
-        .enumerate()
-        .map(|(i, s)| s.replacen("#0", &format!("#{}", i), 1))
-        .collect();
-    co.sample = json!({
-        "case_hex": case.to_hex(),
-        "program": prog.to_json(),
-        "end": format!("{:?}", out.outcome.end),
-        "steps": out.outcome.steps,
-        "switches": out.outcome.switches,
-        "history": hist,
-        "classes": feat.c,
-    });
-    co
-}
-
-impl Engine for Conc {
-    type Case = Case;
-    fn strategy(&self, prop: &str, tier: &str) -> BoxedStrategy<Case> {
-        let p = props::profile(prop, tier);
-        let op = any::<[u8; 4]>();
-        let thread = prop::collection::vec(op, 0..=p.max_ops);
-        let threads = prop::collection::vec(thread, p.threads.0..=p.threads.1);
-        let prober = prop::collection::vec(any::<[u8; 4]>(), 0..=p.prober_ops);
-        let sched = prop::collection::vec(any::<u8>(), 0..=p.max_sched);
-        (any::<[u8; 6]>(), threads, prober, sched)
-            .prop_map(|(cfg, threads, prober, sched)| Case {
-                cfg,
-                threads,
-                prober,
-                sched,
-            })
-            .boxed()
-    }
-    fn run(&self, prop: &str, case: &Case) -> CaseOut {
-        run_case(prop, case)
-    }
-    fn encode(&self, case: &Case) -> String {
-        case.to_hex()
-    }
-    fn decode(&self, s: &str) -> Case {
-        Case::from_hex(s.trim())
-    }
-    fn regressions(&self, prop: &str) -> Vec<String> {
-        let mut v = Vec::new();
-        let dir = PathBuf::from(driver::VERIF).join("regressions").join("conc");
-        if let Ok(rd) = std::fs::read_dir(&dir) {
-            let mut files: Vec<_> = rd.flatten().map(|e| e.path()).collect();
-            files.sort();
-            for f in files {
-                let name = f.file_name().unwrap().to_string_lossy().to_string();
-                if name.starts_with(prop) || name.starts_with("ALL") {
-                    if let Ok(s) = std::fs::read_to_string(&f) {
-                        if let Ok(j) = serde_json::from_str::<serde_json::Value>(&s) {
-                            if let Some(c) = j["case"].as_str() {
-                                v.push(c.to_string());
-                            }
-                        }
-                    }
-                }
-            }
-        }
-        v
-    }
-}
 
 fn cases_for(prop: &str, tier: &str) -> u32 {
     let quick: u32 = match prop {
